@@ -13,7 +13,10 @@ from gen_engine import hexof
 
 def _req(g, items, version=14, bopt=1, user="alice"):
     for k, it in enumerate(items):
-        it.setdefault("bid", "r%d" % k if len(items) > 1 else None)
+        if len(items) > 1:
+            it["bid"] = "r%d" % k                 # every item of a multi-item batch needs an ID
+        else:
+            it.setdefault("bid", None)
         it.setdefault("crypto", None)
     return {"cmd": "req", "now": g.now, "id": {"user": user, "groups": None},
             "req": {"version": version, "ts": None, "async": None, "bopt": bopt if len(items) > 1 else None,
@@ -206,3 +209,64 @@ def attr_commit_builder(g, E, do, length):
             items.append({"op": "getAttributes", "uid": O, "names": []})
         do(_req(g, items, ver, bopt=1))
         do(_req(g, [{"op": "getAttributes", "uid": O, "names": []}], ver))
+
+
+PLACEHOLDER_READERS = ["get", "getAttributes", "getAttributeList", "activate", "revoke", "destroy", "encrypt", "decrypt",
+                       "sign", "signatureVerify", "mac", "setAttribute", "modifyAttribute", "deleteAttribute"]
+
+
+def placeholder_follow_builder(g, E, do, length):
+    """[an item X of ANY operation (reads included) that names its object or none; an item Y that names no
+    identifier and therefore works on the ID placeholder] in one batch.  Only Create, CreateKeyPair, Register and
+    DeriveKey set the placeholder; whatever X is, Y must be answered with success or a specific error (C13), must not
+    touch an object X merely read (C08 / C03), and must be answered as the model answers it."""
+    r = g.r
+    ver = g.ch([12, 13, 14, 14, 20])
+    raw_do = do
+
+    def do(j):
+        o = raw_do(j)
+        if j.get("cmd") == "req":
+            raw_do({"cmd": "dump"})
+        return o
+
+    def key(mask, name):
+        attrs = [_A("Cryptographic Algorithm", "enum", 3), _A("Cryptographic Length", "int", 128),
+                 _A("Cryptographic Usage Mask", "int", mask), _A("Name", "name", name, 0, t=1)]
+        return _uid(do(_req(g, [{"op": "create", "otype": 2, "tmpl": {"tnames": 0, "attrs": attrs},
+                                 "crypto": {"k": "ok", "t": hexof(16, rnd=r)}}], ver)))
+    K = key(0xFFFFFF, "only-%d" % r.randrange(10 ** 6))
+    P = key(12, "pre-%d" % r.randrange(10 ** 6))
+    if K is None or P is None:
+        return
+    do(_req(g, [{"op": "activate", "uid": K}], ver))
+    kname = None
+    # the name K was given (for a Locate with exactly one match)
+    d = raw_do({"cmd": "dump"})
+    for ob in (d.get("objs") or []):
+        if str(ob["uid"]) == str(K) and ob["names"]:
+            kname = ob["names"][0]
+    firsts = [
+        {"op": "locate", "max": None, "offset": None, "attrs": [_A("Name", "name", kname or "x", None, t=1)]},
+        {"op": "locate", "max": 1, "offset": None, "attrs": []},
+        {"op": "get", "uid": K, "format": None, "compression": False, "wrap": None},
+        {"op": "getAttributes", "uid": K, "names": []},
+        {"op": "getAttributeList", "uid": P},
+        {"op": "query", "functions": [1, 2]},
+        {"op": "discoverVersions", "versions": []},
+        {"op": "encrypt", "uid": K, "params": True, "crypto": {"k": "ok", "t": hexof(16, rnd=r)}},
+        {"op": "mac", "uid": K, "alg": 8, "data": True, "crypto": {"k": "ok", "t": hexof(20, rnd=r)}},
+        {"op": "activate", "uid": K},                                    # refused
+        {"op": "get", "uid": "9999", "format": None, "compression": False, "wrap": None},   # not found
+        {"op": "create", "otype": 2, "tmpl": {"tnames": 0, "attrs": [
+            _A("Cryptographic Algorithm", "enum", 3), _A("Cryptographic Length", "int", 128),
+            _A("Cryptographic Usage Mask", "int", 12)]}, "crypto": {"k": "ok", "t": hexof(16, rnd=r)}},
+    ]
+    r.shuffle(firsts)
+    for x in firsts[:max(4, min(length, len(firsts)))]:
+        yop = g.ch(PLACEHOLDER_READERS)
+        y = g.item(op=yop, version=ver)
+        y["uid"] = None
+        if x["op"] == "create" and g.p(0.5):
+            y = {"op": "activate", "uid": None}
+        do(_req(g, [dict(x), y], ver, bopt=g.ch([1, 1, None])))
